@@ -72,7 +72,7 @@ PROPS = {
                     {"name": "srvsplit", "n": {"quick": 60, "thorough": 3000}, "profiles": ["debug"], "oracle": "oracle_C09"},
                     {"name": "srvhandler", "n": {"quick": 400, "thorough": 15000}, "profiles": ["debug"], "oracle": "oracle_C09", "shard": 60},
                     {"name": "connhandler", "n": {"quick": 400, "thorough": 15000}, "profiles": ["debug"], "oracle": "oracle_C09", "shard": 100}],
-        "tie_lemmas": ["tie_max_message_size", "tie_limit_operand", "tie_limit_operator", "tie_varint_error_mapping", "tie_split_addend", "tie_split_operator", "tie_split_limit", "tie_split_early_return", "tie_split_shape"],
+        "tie_lemmas": ["tie_max_message_size", "tie_limit_operand", "tie_limit_operator", "tie_varint_error_mapping", "tie_split_addend", "tie_split_operator", "tie_split_limit", "tie_split_early_return", "tie_split_shape", "tie_shpoll", "tie_shpoll_tables"],
         "rule": "engine connhandler: see C14. engine codec (debug = overflow-checked and release profile; in release every decode runs in a confined child process): "
                 "length prefixes of every varint byte length 1..11 (values around every power of two, around the 4 MiB limit, overlong / overflowing / "
                 "non-minimal encodings) followed by 0, 1, 3 and 40 payload bytes; all frames of <= 3 (quick) / 4 (thorough) bytes over a 14-byte boundary alphabet; "
@@ -85,12 +85,13 @@ PROPS = {
         "assumptions": ["64-bit usize", "outbound half (C09_outbound_split) is about the server handler model, see Props_C09.v"],
     },
     "C06": {
-        "engines": [{"name": "server", "n": {"quick": 150, "thorough": 2000}, "profiles": ["debug"], "oracle": "oracle_C06", "shard": 20}],
-        "tie_lemmas": ["tie_max_wantlist_entries", "tie_srv_wantlist_shape"],
+        "engines": [{"name": "server", "n": {"quick": 150, "thorough": 2000}, "profiles": ["debug"], "oracle": "oracle_C06", "shard": 20},
+                    {"name": "srvhandler", "n": {"quick": 400, "thorough": 15000}, "profiles": ["debug"], "oracle": "oracle_C06", "shard": 60}],
+        "tie_lemmas": ["tie_max_wantlist_entries", "tie_srv_wantlist_shape", "tie_shpoll", "tie_shpoll_tables"],
         "rule": """engine server: the server half of Behaviour driven op by op through the public NetworkBehaviour interface (new connection, wantlist message, new blocks, disconnect, release of one store.get call, poll to Pending) with a scripted blockstore whose calls complete only when released, in any order; histories over 1-3 peers x 2-4 CIDs (updates and full wantlists with wants, cancels, duplicates, cancel+want of one CID in one message, undecodable CIDs; hits, misses, failures, unknown call numbers; blocks arriving between registration and completion) driven to quiescence at the end, plus wantlists of 0..1300 (quick) / 5000 (thorough) entries, full and update. After every op the outputs (store calls started, QueueOutgoingMessages per peer) and a snapshot of the server state are compared with the model; the oracle folds the Bitswap reference view over the op history and the implementation's outputs only. Every history is non-trivial; distinct = distinct op lists.""",
         "assumptions": ["32 <= S <= 255", "A-STORE (healthy blockstore) is not needed by the theorems: store answers are inputs",
                         "the reference view contains the 1024 cap of C13 (C06_cap_refuted shows a want beyond it is dropped)",
-                        "the server handler's delivery of the queued blocks to the wire is C09-outbound/C14 territory, not C06"],
+                        "engine srvhandler (see C09): blocks the behaviour handed to the connection handler must reach the stream in order without one being skipped (fault-free runs); what a stream fault loses is outside C06's fault list"],
     },
     "C07": {
         "engines": [{"name": "server", "n": {"quick": 150, "thorough": 2000}, "profiles": ["debug"], "oracle": "oracle_C07", "shard": 20}],
@@ -154,7 +155,7 @@ PROPS = {
                         "a generated wantlist is taken as delivered; when that is in doubt the next one is full (C05) and overwrites the view"],
     },
     "C15": {
-        "engines": [{"name": "client", "n": {"quick": 500, "thorough": 12000}, "profiles": ["debug"], "oracle": "oracle_C15", "shard": 15},
+        "engines": [{"name": "client", "n": {"quick": 500, "thorough": 12000}, "profiles": ["debug"], "oracle": "oracle_C15_conns", "shard": 15},
                     {"name": "server", "n": {"quick": 100, "thorough": 2000}, "profiles": ["debug"], "oracle": "oracle_C13", "shard": 20},
                     {"name": "handler", "n": {"quick": 800, "thorough": 30000}, "profiles": ["debug"], "oracle": "oracle_C05", "shard": 60},
                     {"name": "net", "n": {"quick": 2500, "thorough": 30000}, "profiles": ["debug"], "oracle": "oracle_C02", "shard": 200, "distinct_io": True},
@@ -193,7 +194,7 @@ PROPS = {
         "engines": [{"name": "client", "n": {"quick": 600, "thorough": 12000}, "profiles": ["debug"], "oracle": "oracle_C05", "shard": 15},
                     {"name": "handler", "n": {"quick": 1500, "thorough": 30000}, "profiles": ["debug"], "oracle": "oracle_C05", "shard": 60, "count": ["is_disciplined"]},
                     {"name": "connhandler", "n": {"quick": 400, "thorough": 15000}, "profiles": ["debug"], "oracle": "oracle_C05", "shard": 100}],
-        "tie_lemmas": ["tie_send_full_interval", "tie_receive_request_timeout", "tie_start_sending_timeout", "tie_peer_initial_send_full", "tie_uh_gate", "tie_uh_after", "tie_refresh_timer"],
+        "tie_lemmas": ["tie_send_full_interval", "tie_receive_request_timeout", "tie_start_sending_timeout", "tie_peer_initial_send_full", "tie_uh_gate", "tie_uh_after", "tie_refresh_timer", "tie_hpoll", "tie_hpoll_tables"],
         "rule": "engine connhandler: see C14. engine client: see C03 (faults: Failed reports from the sending connection, reports withheld past 1 s of virtual time, connections closed in every sending state, reports from other "
                 "connections; oracle: first wantlist of a session is full, the first wantlist after a fault is full and avoids the faulty connection). engine handler: the client half of the real ConnHandler "
                 "driven through the ConnectionHandler trait over a scripted substream (every poll_write / poll_flush / poll_close outcome: accept n bytes, zero, error, pending), substream allocation failures, "
@@ -208,7 +209,7 @@ PROPS = {
                     {"name": "client", "n": {"quick": 500, "thorough": 12000}, "profiles": ["debug"], "oracle": "oracle_C14", "shard": 15},
                     {"name": "net", "n": {"quick": 2500, "thorough": 30000}, "profiles": ["debug"], "oracle": "oracle_C14", "shard": 200, "distinct_io": True},
                     {"name": "connhandler", "n": {"quick": 600, "thorough": 20000}, "profiles": ["debug"], "oracle": "oracle_C14", "shard": 100}],
-        "tie_lemmas": ["tie_uh_gate", "tie_uh_after", "tie_refresh_timer"],
+        "tie_lemmas": ["tie_uh_gate", "tie_uh_after", "tie_refresh_timer", "tie_hpoll", "tie_hpoll_tables"],
         "rule": "engine connhandler: the WHOLE real ConnHandler of lib.rs (client half + server half + SelectAll of inbound streams under the priority order of poll, event routing of on_behaviour_event / on_connection_event incl. the ignored server DialUpgradeError) over scripted streams for both halves and scripted inbound streams, against ConnHandler.v = the composition of Handler.v, ServerHandler.v and Streams.v; events in the order returned, both handler snapshots, live inbound streams and keep-alive after every op. engine handler: see C05 (oracle: the bytes accepted by each stream are a prefix of the frame of exactly one accepted wantlist, a stream never carries more than one frame, Ready is reported iff some stream "
                 "was written the complete frame). engine client: see C03 (oracle: no SendWantlist for a peer while one is outstanding). engine net: 2-4 complete nodes (real Behaviour + real ConnHandlers + real codec) wired by the "
                 "harness's mini swarm over in-memory pipes with arbitrary read chunking, schedules and blockstore latencies; histories of connect / disconnect / get / cancel / local put / evict; after settle + two refresh periods the "
